@@ -59,7 +59,7 @@ def bevToString : BEv → String
 
 /-- `resp <METHOD> <maxHeaders> <cap> <maxBuf> <segs> <reads>`
     reads: comma-separated sizes, or `B<sz>` (`bytes()`: drain with reads of `sz`), `W<sz>` (`write_to`),
-    `S<sz>` (`split()` + `read_to_end`), `J<sz>` (`json()` / `json_utf8()` on a body that is a canonical JSON
+    `S<sz>` (`split()` + `read_to_end`), `X<sz>` (the text family, verdict only), `J<sz>` (`json()` / `json_utf8()` on a body that is a canonical JSON
     document: Ok stands for the whole body) — the same drain —, `Q<sz>` (`error_for_status()?.bytes()`:
     `StatusCode::is_success` = 200 ≤ status < 300, else `ErrorKind::StatusCode`), `T<sz>` (`text_utf8()`),
     `V<op>,<op>,…` (the `BufRead` view: `r<n>` read, `f` fill_buf, `c<k>` consume, `m<k>` consume at most what is buffered). -/
@@ -95,6 +95,12 @@ def opResp (args : List String) : String :=
            | 'W' :: rest => drainEv rest
            | 'S' :: rest => drainEv rest
            | 'J' :: rest => drainEv rest
+           | 'X' :: rest =>
+             -- the text family (`text()`, `text_with()`, `text_reader()` + `read_to_string`, `text_utf8()`):
+             -- the same drain; what the text is, is C18's business — `o` stands for "the whole body was read"
+             (match drainEv rest with
+              | [e] => if e.startsWith "o" then ["o"] else [e]
+              | es => es)
            | 'Q' :: rest =>
              if 200 ≤ resp.status ∧ resp.status < 300 then drainEv rest else [s!"e:status{resp.status}"]
            | _ =>
